@@ -218,6 +218,12 @@ def run():
         for g in getters:
             add("getter", g, f"a.{g}", {"a": s}, ("numpy",))
             add_sp("getter", g, f"a.{g}", {"a": s})
+        # field access by (synonym) name: the stored column (only names of STORED coordinates: a["x"] of a rho-phi array is no field)
+        stored = set(s[1])
+        for g in ("x", "y", "rho", "phi", "z", "theta", "eta", "t", "tau", "px", "py", "pt", "pz", "E", "e", "energy", "M", "m", "mass"):
+            if GEN.get(g, g) in stored:
+                recs.append({"fam": "getter", "name": "field_" + g, "method": "field", "text": f'a["{g}"]', "kw": [], "pairing": ["numpy"], "srcs": [key(s)],
+                             "np": R.evaluate(f'a["{g}"]', {"a": s}, {"a": "numpy"}), "py": R.evaluate(f"a.{g}", {"a": s}, {"a": "object"})})
         recs.append({"fam": "getter", "name": "index0", "method": "index0", "text": "a[0]", "kw": [], "pairing": ["numpy"], "srcs": [key(s)],
                      "np": R.evaluate("a[0]", {"a": s}, {"a": "numpy"}), "py": R.evaluate("a", {"a": s}, {"a": "object"})})
         for m in to_methods:
